@@ -214,6 +214,44 @@ Fixpoint sent_counters (acts obs : list sx) : list (N * N) :=
   | _, _ => []
   end.
 
+(* P_C03 on the observations alone: a handshake message forged by the adversary that does
+   not carry a signature of the key it claims (an InitDone, whose InitHello claimed an honest
+   key, signed by an adversary key or not at all; a RespHello signed by another key than the
+   one it claims, or carrying a signature made for another purpose, or garbage) must leave the
+   session where it was: neither its handshake index nor its readiness may change. *)
+Definition forged_unsigned (spec : sx) : bool :=
+  match spec with
+  | SL [f; _; _; _; _; _] =>
+      if is_sym "idforge" f then true
+      else if is_sym "rhforge" f then
+        match spec with
+        | SL [_; _; _; SN k; SN kind; SN x] => negb ((kind =? 0) || ((kind =? 1) && (x =? k)))
+        | _ => false end
+      else false
+  | _ => false
+  end.
+
+Definition hs_ready (o : sx) : option (N * N) := match o with SL (SN h :: SN r :: _) => Some (h, r) | _ => None end.
+
+Fixpoint p_forged (prev : list (N * N)) (acts obs : list sx) : sx :=
+  match acts, obs with
+  | a :: ar, o :: orr =>
+      match a with
+      | SL [t; SN i; spec] =>
+          if is_sym "new" t then p_forged (prev ++ [(0, 0)]) ar orr
+          else
+            let before := nth_error prev (N.to_nat i) in
+            let after := hs_ready o in
+            if is_sym "dlv" t && forged_unsigned spec &&
+               match before, after with Some (h0, r0), Some (h1, r1) => negb ((h0 =? h1) && (r0 =? r1)) | _, _ => false end
+            then bad "handshake-advanced-on-a-message-the-claimed-key-never-signed"
+            else p_forged (match after with Some hr => set_nthw prev (N.to_nat i) hr | None => prev end) ar orr
+      | SL (t :: _) => if is_sym "new" t then p_forged (prev ++ [(0, 0)]) ar orr else p_forged prev ar orr
+      | _ => p_forged prev ar orr
+      end
+  | _, _ => ok
+  end.
+
 Definition p_sessions (acts obs : list sx) : sx :=
   if existsb (is_sym "panic") obs then bad "panic"
   else
@@ -223,10 +261,15 @@ Definition p_sessions (acts obs : list sx) : sx :=
     else if negb (nodup_pairs apps) then bad "plaintext-delivered-twice"
     else if negb (nodup_pairs (sent_counters acts obs)) then bad "counter-reused-under-one-key"
     else if existsb (fun q => snd q <? 4) (sent_counters acts obs) then bad "data-counter-in-handshake-range"
-    else ok.
+    else p_forged [] acts obs.
 
 Definition run_sessions (case obs : sx) : sx :=
   match case, obs with
+  | SL [t; SN g; SN k; _], SL [SN total; SN dups; SN errs] =>
+      if is_sym "conc-send" t then
+        SL [SL [SN (g * k); SN 0; SN 0];
+            if negb (dups =? 0) then bad "header-counter-used-twice" else ok]
+      else bad_case
   | SL [t; SL acts], SL obsl =>
       if is_sym "ke" t then
         let '(model, _) := run_actions (mkW [] [] []) acts [] in
